@@ -402,30 +402,43 @@ fn vhistories(depth: usize) -> Vec<Vec<VOp>> {
 /// DX at the client level: two overlapping requests on a fresh client (both may dial, in either order of completion),
 /// then — once both are finished — two sequential requests. Sessions that were created and never handed out again are
 /// still in the pool (model: a connection with exactly one SYN), so the last request must not dial while one exists.
-pub fn make_burst_then_sequential() -> crate::ctl::ScenarioFn {
+pub fn make_burst_then_sequential(burst: u16, one_creation_fails: bool) -> crate::ctl::ScenarioFn {
     use crate::cworld::*;
     use crate::ctl::{Outcome, hpoint, scenario, settle};
     scenario(move || async move {
         let mut out = Outcome::default();
         let w = CWorld::start(crate::sess::padding(crate::sess::STOP0), quiet_pool(1), Answer::Ok);
+        if one_creation_fails {
+            // the first connection dialled in the burst is dropped by the server before the TLS handshake
+            w.drop_before_handshake.store(1, std::sync::atomic::Ordering::SeqCst);
+            // healthy connections take 5 ms to be accepted: the failure is known while the others are still being set up
+            w.accept_delay_ms.store(5, std::sync::atomic::Ordering::SeqCst);
+        }
         let mut hs = vec![];
-        for t in 0..2u16 {
+        for t in 0..burst {
             let c = w.client.clone();
             hs.push(tokio::spawn(async move {
                 hpoint("h.c13.burst").await;
+                if one_creation_fails && t == 2 {
+                    // the third request arrives after the failure (at 2 ms), while the second session is not yet pooled
+                    tokio::time::sleep(Duration::from_millis(3)).await;
+                }
                 crate::sess::within(c.create_proxy_stream(("example.com".to_string(), 2001 + t))).await
             }));
         }
         let mut held = vec![];
+        let mut failed = 0;
         for h in hs {
             match h.await {
                 Ok(Some(Ok(x))) => held.push(x),
+                Ok(Some(Err(_))) if one_creation_fails && failed == 0 => failed += 1,
                 other => {
                     out.viol("C13:request-failed", format!("burst request: {:?}", other.map(|o| o.map(|r| r.map(|_| ()).map_err(|e| e.to_string())))));
                     return out;
                 }
             }
         }
+        w.drop_before_handshake.store(0, std::sync::atomic::Ordering::SeqCst);
         drop(held);
         settle().await;
         let syns = |l: &ConnLog| l.frames.iter().filter(|f| f.cmd == crate::refmodel::SYN).count();
@@ -445,7 +458,7 @@ pub fn make_burst_then_sequential() -> crate::ctl::ScenarioFn {
             let dialled = w.dials() - before;
             dial_log.push(w.dials());
             if dialled > 0 && !pooled.is_empty() {
-                out.viol("C13:redial-while-healthy-session-exists:pooled-session-ignored", format!("two overlapping requests, both finished, then sequential request #{}: {dialled} new connection(s) dialled although connection(s) {:?} carry a healthy session that was created, pooled and never handed out again (SYNs per connection: {:?})", r + 1, pooled, logs0.iter().map(syns).collect::<Vec<_>>()));
+                out.viol("C13:redial-while-healthy-session-exists:pooled-session-ignored", format!("a burst of overlapping requests, all finished, then sequential request #{}: {dialled} new connection(s) dialled although connection(s) {:?} carry a healthy session that was created, pooled and never handed out again (SYNs per connection: {:?})", r + 1, pooled, logs0.iter().map(syns).collect::<Vec<_>>()));
                 break;
             }
         }
@@ -457,10 +470,14 @@ pub fn make_burst_then_sequential() -> crate::ctl::ScenarioFn {
 }
 
 pub fn burst_items(tier: Tier) -> Vec<crate::dxrun::DxItem> {
-    let mut it = crate::dxrun::DxItem::new(json!({"part": "client-level burst then sequential requests"}), make_burst_then_sequential(), if tier.is_thorough() { 3 } else { 2 });
-    it.exec.quiesce = true;
-    it.exec.long_yield = 3;
-    vec![it]
+    let mut v = vec![];
+    for (burst, fails, bq, bt) in [(2u16, false, 1usize, 2usize), (3, true, 1, 2), (3, false, 0, 1)] {
+        let mut it = crate::dxrun::DxItem::new(json!({"part": "client-level burst then sequential requests", "burst": burst, "one_session_creation_fails": fails}), make_burst_then_sequential(burst, fails), if tier.is_thorough() { bt } else { bq });
+        it.exec.quiesce = true;
+        it.exec.long_yield = 3;
+        v.push(it);
+    }
+    v
 }
 
 fn virtual_family(rep: &mut Report, thorough: bool) {
@@ -497,7 +514,9 @@ pub fn run(tier: Tier) -> i32 {
         "TLS connections are counted by a TCP relay in front of the real server".into(),
     ];
     virtual_family(&mut rep, thorough);
-    crate::dxrun::run_items(&mut rep, "C13", tier, burst_items(tier), crate::dxrun::DxOpts { time_cap: Duration::from_secs(if thorough { 600 } else { 45 }), det_replays: 2, max_violations: 2, vacuity_check: false });
+    // one execution at a time: the client's session sequence numbers come from a PROCESS-wide counter (subject state
+    // shared by every execution in this process)
+    crate::dxrun::run_items_workers(&mut rep, "C13", tier, burst_items(tier), crate::dxrun::DxOpts { time_cap: Duration::from_secs(if thorough { 600 } else { 45 }), det_replays: 2, max_violations: 2, vacuity_check: false }, 1);
     let depth = if thorough { 6 } else { 4 };
     let mut hs = histories(depth);
     // plus every history over {start, finish} alone up to depth 6 (7): the plain request sequences
